@@ -104,7 +104,7 @@ func registerNatives(e *Engine) map[string]nativeFn {
 			for k := 0; k < w; k++ {
 				inner = mkStore(inner, mkAdd(s.Off, mkInt(int64(k))), mkApp(fmt.Sprintf("byte%d_%d", w, k), SInt, v))
 			}
-			ni := vc.fresh("put", SArr(SInt, SInt))
+			ni := vc.fresh("inner$uint8", SArr(SInt, SInt))
 			vc.assumeGlobal(mkEq(ni, inner))
 			vc.famSet(st, key, mkStore(arr, s.Base, ni))
 			vc.eng.usePack(vc, w)
